@@ -381,18 +381,19 @@ func storm(c *Ctx, idx int, p stormParams, props []string) {
 	var sentTotal int64
 	for ci, cl := range clients {
 		wg.Add(1)
+		seed := rng.Int63() + int64(ci)
 		go func(ci int, cl *rawcql.Client) {
 			defer wg.Done()
-			lr := rand.New(rand.NewSource(rng.Int63() + int64(ci)))
+			lr := rand.New(rand.NewSource(seed))
 			sem := make(chan struct{}, p.Window)
-			cl.OnFrame = func(f *rawcql.Frame) {
+			cl.SetOnFrame(func(f *rawcql.Frame) {
 				if f.Stream >= 0 && f.Stream < 30000 {
 					select {
 					case <-sem:
 					default:
 					}
 				}
-			}
+			})
 			for i := 0; i < p.PerClient; i++ {
 				select {
 				case sem <- struct{}{}:
@@ -552,7 +553,7 @@ func deathOrder(c *Ctx, idx int, order []int, class string) {
 			return true
 		}
 		x := bed.Cluster.ConnByPeerAddr(ev.Local)
-		return x != nil && !x.Registered
+		return x != nil && !x.IsRegistered()
 	}
 	bed.OnHook(func(ev *px.HookEvent) { gates.Handle(ev, bed.Cluster.HostIdxOfAddr(ev.Remote)) })
 	scripts := NewScripts()
